@@ -3,9 +3,11 @@
    Model: Model/Ignore.v (should_ignore = IgnoreDirectiveParser.should_ignore_violation over the file's bytes, literals from
    Gen/IgnoreGen.v); specification: Model/IgnoreSpec.v (abstract files, render, spec, the domain predicates). *)
 From TL Require Import Lib.Base Lib.GenTypes Gen.IgnoreGen Model.PyStr Model.Ignore Model.IgnoreSpec Model.IgnoreRun
-     Actual.IgnoreActual Proofs.IgnoreMain Proofs.IgnoreCor Proofs.IgnoreRules Proofs.IgnorePipes Proofs.IgnoreLines.
+     Actual.IgnoreActual Proofs.IgnoreMain Proofs.IgnoreCor Proofs.IgnoreRules Proofs.IgnorePipes Proofs.IgnoreLines Proofs.IgnoreRegress.
 
-(* 1. Main theorem.  For every quirk vector with all flags off, every abstract file of the domain (any number and mix of
+(* 1. Main theorem.  For every quirk vector whose two remaining deviating flags are off (flags_off: q_splitlines_unicode,
+      q_start_rules_from_code; the other five flags - repaired by the fix: commits b7d1dc0, 71ade39, 9b79df3 - may read the source's own
+      tables and fallbacks or the ideal ones), every abstract file of the domain (any number and mix of
       same-line / next-line / block / file-level directives in either comment style, arbitrary code lines not containing the
       word "ignore"), every code line v and every non-empty rule id r: the model suppresses (v, r) iff a directive whose scope
       contains v names r (or the file matches a repository-level pattern). *)
@@ -18,10 +20,18 @@ Print Assumptions C04_suppression_exact.
 (* 2. Confinement (partial: the full statement is 1).  Under ANY vector - in particular the one claimed for the current tree -
       the same equality holds on every input that avoids the defect class of each flag that is on (Model/IgnoreSpec.v: avoids). *)
 Theorem C04_suppression_exact_partial : forall q repo a v r,
-  file_ok a = true -> target_ok a v = true -> nonempty r = true -> avoids q a v = true ->
+  file_ok a = true -> target_ok a v = true -> nonempty r = true -> avoids q a = true ->
   should_ignore q repo (render a) v r = spec repo a v r.
 Proof. exact should_ignore_exact. Qed.
 Print Assumptions C04_suppression_exact_partial.
+
+(* 2b. The vector claimed for the current tree: exact on every file without str.splitlines' extra boundaries and without a
+       bracketed rule list on a block start (the two defects still listed as known). *)
+Theorem C04_current_tree_exact : forall repo a v r,
+  file_ok a = true -> target_ok a v = true -> nonempty r = true -> avoids ignore_actual a = true ->
+  should_ignore ignore_actual repo (render a) v r = spec repo a v r.
+Proof. exact (should_ignore_exact ignore_actual). Qed.
+Print Assumptions C04_current_tree_exact.
 
 (* 3. Each directive form removes exactly the violations of the named rules in its scope (one directive, other lines plain code). *)
 Theorem C04_same_line_exact : forall q pre c st n post v r, flags_off q ->
@@ -62,9 +72,7 @@ Print Assumptions C04_other_rule_noop.
 
 (* 5. The # and // comment styles are interchangeable, line by line. *)
 Theorem C04_comment_style_interchangeable : forall q f repo a v r,
-  q_splitlines_unicode q = false -> q_next_line_hash_only q = false -> q_file_hash_only q = false ->
-  q_block_end_before q = false -> q_bare_line_unsupported q = false -> q_bare_file_unsupported q = false ->
-  q_start_rules_from_code q = false ->
+  q_splitlines_unicode q = false -> q_start_rules_from_code q = false ->
   file_ok a = true -> target_ok a v = true -> nonempty r = true ->
   should_ignore q repo (render (map (restyle f) a)) v r = should_ignore q repo (render a) v r.
 Proof. exact style_interchangeable. Qed.
@@ -112,19 +120,43 @@ Theorem C04_pipeline_table_consistent :
 Proof. exact pipeline_table_consistent. Qed.
 Print Assumptions C04_pipeline_table_consistent.
 
+(* 9. Regressions: the witnesses of the findings repaired by fix: b7d1dc0, 71ade39, 9b79df3 now meet the specification under the
+      vector claimed for the current tree (they were `_refuted` theorems before the repair). *)
+Theorem C04_next_line_hash_only_repaired : repaired w_next_slash 2 "magic-numbers.numeric-literal" true.
+Proof. exact next_line_hash_only_repaired. Qed.
+Print Assumptions C04_next_line_hash_only_repaired.
+
+Theorem C04_file_hash_only_repaired : repaired w_file_slash 2 "nesting.excessive-depth" true.
+Proof. exact file_hash_only_repaired. Qed.
+Print Assumptions C04_file_hash_only_repaired.
+
+Theorem C04_block_end_before_repaired : repaired w_before_block 1 "magic-numbers.numeric-literal" false.
+Proof. exact block_end_before_repaired. Qed.
+Print Assumptions C04_block_end_before_repaired.
+
+Theorem C04_bare_line_unsupported_repaired : repaired w_bare_line 1 "nesting.excessive-depth" true.
+Proof. exact bare_line_unsupported_repaired. Qed.
+Print Assumptions C04_bare_line_unsupported_repaired.
+
+Theorem C04_bare_file_unsupported_repaired : repaired w_bare_file 2 "nesting.excessive-depth" true.
+Proof. exact bare_file_unsupported_repaired. Qed.
+Print Assumptions C04_bare_file_unsupported_repaired.
+
 (* non-vacuity: a file of the domain with all four forms, both styles, a bare directive and spelled-out rule lists, on which the
-   specification suppresses some (line, rule) pairs and not others, and on which the ideal model computes exactly that *)
+   specification suppresses some (line, rule) pairs and not others, and on which the FAITHFUL model (the vector claimed for the current
+   tree) computes exactly that *)
 Definition ex_file : list aline :=
   [LFile Slashes (Names "DRY"); LPlain "import re"; LNext "" Hash (Names "nesting, srp.*"); LPlain "def f(a):";
    LSame "    return 4242" Hash (Names "Magic-Numbers"); LStart "    " Slashes false (Names "print-statements");
    LPlain "    print(a)"; LEnd "    " Slashes; LPlain "    print(a)"; LSame "x = 1" Slashes Bare].
 Example C04_nonvacuous :
-  file_ok ex_file = true /\ avoids ideal ex_file 7 = true
+  file_ok ex_file = true /\ avoids ideal ex_file = true /\ avoids ignore_actual ex_file = true
   /\ map (fun vr => spec false ex_file (fst vr) (snd vr))
          [(4, "nesting.excessive-depth"); (4, "magic-numbers.numeric-literal"); (5, "magic-numbers.numeric-literal"); (5, "nesting.excessive-depth");
           (7, "improper-logging.print-statement"); (9, "improper-logging.print-statement"); (9, "dry.duplicate-code"); (10, "cqs")]
      = [true; false; true; false; true; false; true; true]
-  /\ map (fun vr => should_ignore ideal false (render ex_file) (fst vr) (snd vr))
-         [(4, "nesting.excessive-depth"); (4, "magic-numbers.numeric-literal"); (7, "improper-logging.print-statement"); (9, "improper-logging.print-statement")]
-     = [true; false; true; false].
+  /\ map (fun vr => should_ignore ignore_actual false (render ex_file) (fst vr) (snd vr))
+         [(4, "nesting.excessive-depth"); (4, "magic-numbers.numeric-literal"); (7, "improper-logging.print-statement"); (9, "improper-logging.print-statement");
+          (9, "dry.duplicate-code"); (10, "cqs")]
+     = [true; false; true; false; true; true].
 Proof. vm_compute. repeat split; reflexivity. Qed.
